@@ -1,4 +1,5 @@
 import OrbitModel.Proofs.History
+import OrbitModel.Proofs.ViewRace
 /-!
 # C06 — key-value store = last-writer-wins replay of its log in causal order
 
@@ -76,5 +77,22 @@ theorem own_write_listed_last {ca : Entry → Bool} {U : List Entry} (hU : HashD
     (hcan : ca (mk (appendTime L) (appendNext L)) = true) :
     values (append ca L mk).1 = values L ++ [mk (appendTime L) (appendNext L)] :=
   append_values hU hT hM hG mk hmem hnext htime hfresh hcan
+
+/-- "At every moment" also under concurrent updates of the view (two writers, or a writer and a
+replication batch): with the log copied under the index lock (after the `fix:` commit, finding F19)
+the view is never built from less of the log than any update that has returned had seen, and is
+built from the whole log once all have returned — for every number of updaters and every schedule.
+(`view = k` stands for "the replay of the first k entries", which is what `index_tracks_replay`
+says an update writes.) -/
+theorem concurrent_updates_never_leave_a_stale_view (n : Nat) (sched : List Nat)
+    (hd : View.allDone (View.run true (View.init n) sched) = true) :
+    (View.run true (View.init n) sched).view = (View.run true (View.init n) sched).logLen :=
+  View.view_complete_when_all_returned n sched hd
+
+/-- the tree before that repair: the older copy written last (decide-checked; replayed on the real
+store, corpus/C06) -/
+theorem unlocked_copy_left_a_stale_view :
+    let s := View.run false (View.init 2) [0, 0, 1, 1, 1, 0]
+    View.allDone s = true ∧ s.logLen = 2 ∧ s.view = 1 := View.unlocked_copy_leaves_a_stale_view
 
 end Orbit.C06
